@@ -175,7 +175,14 @@ def _one_graph(place, toppure, n, edges, res, hollow=None, verbose=False):
     for who, obj, exp in [('top', top, exp_top)] + (
             [('holder', holder, ok)] if holder is not top else []):
         for attempt in (1, 2):
-            got = obj.check_cycles()
+            try:
+                got = obj.check_cycles()
+            except Exception as exc:
+                msgs.append("check_cycles() of %s (%s, call %d) raises %r "
+                            "instead of returning a bool"
+                            % (who, type(obj).__bases__[0].__name__, attempt,
+                               exc))
+                continue
             if got is not exp:
                 msgs.append("check_cycles() of %s (%s, call %d) returns %r, "
                             "the graph is %s" % (
@@ -261,7 +268,10 @@ def _apply_history(n, hist):
                         % (op, sorted(real), sorted(model)))
         named = {(NAMES[a], NAMES[b]) for a, b in model}
         ok = seq.acyclic({NAMES[k] for k in range(n)}, named)
-        got = top.check_cycles()
+        try:
+            got = top.check_cycles()
+        except Exception as exc:
+            got = exc
         if got is not ok:
             msgs.append("check_cycles() returns %r after history %s; graph %s "
                         "is %s" % (got, hist, sorted(model),
